@@ -24,7 +24,9 @@ timestamp is rounded to the 1 ms resolution revisions are serialised with.
 attested-text-unaltered: the rendering methods (everything reachable from as_text_lines inside the module) only decode/
 encode, escape with replace(), split into lines and format the values they render — no strip, case folding, path
 normalisation or slicing on the way.
-Does not decide: injectivity of the escaping itself (replace() tables), str.splitlines() treating \x0c etc. as line ends.
+line-split-injective: free text written back one line per piece is cut at "\n" only (str.splitlines() cuts at eight more
+separators and makes texts that differ only in the separator collide) — two known findings on today's tree.
+Does not decide: injectivity of the escaping itself (replace() tables).
 """
 REV_FIELDS = ["revision_id", "committer", "timestamp", "timezone", "parent_ids", "message", "revprops"]
 ENTRY_FIELDS = {"kind", "file_id", "text_sha1", "symlink_target"}
@@ -211,6 +213,16 @@ def run(ctx):
                 bad.append(f"L{n.lineno}:{norm(n)[:60]} (slice)")
         ctx.check("attested-text-unaltered", f"{TF}:{q}", not bad, f"{q} only decodes, escapes, splits and formats the values it renders", construct="; ".join(bad), message=f"{q} passes a rendered value through {bad}: an operation outside decode/encode/replace/splitlines/format maps different values of an attested field (message, property value, path, symlink target) to the same testament text — a change of that field no longer changes the testament")
     ctx.extra["render_calls"] = n_calls
+    # free text (message, property values) is written back one "\n"-terminated line per piece: the split has to cut at
+    # "\n" only.  str.splitlines() also cuts at \r, \x0b, \x0c, \x1c-\x1e, \x85, \u2028 and \u2029, so texts that
+    # differ only in which of these separates two lines render identically.
+    n_split = 0
+    for q in sorted(render):
+        for c in calls_in(fns[q]):
+            if call_attr(c) == "splitlines":
+                n_split += 1
+                ctx.check("line-split-injective", f"{TF}:{q}[{norm(c.func.value) if norm(c.func.value).startswith('self.') else '<local>'}.splitlines]", False, "free text is cut at newline characters only", construct=f"L{c.lineno}:{norm(c)}", message=f"{q} cuts {norm(c.func.value)} with str.splitlines(), which also cuts at \\r, \\x0b, \\x0c, \\x1c-\\x1e, \\x85, \\u2028, \\u2029 and then writes every piece back with '\\n': two revisions whose text differs only in the kind of line separator (e.g. 'a\\nb' and 'a\\x0cb') have the same testament, so a signature over one also verifies the other")
+    ctx.extra["splitlines_sites"] = n_split
 
 MUTANTS = [
     Mutant("message lines lose trailing whitespace", TF, '        for l in self.message.splitlines():\n            a(f"  {l}\\n")\n', '        for l in self.message.splitlines():\n            a(f"  {l.rstrip()}\\n")\n', expect="attested-text-unaltered"),
